@@ -238,7 +238,14 @@ var soupAlphabet = []byte("[]{},:\"\\0123456789-+.eEtrufalsn \t\n\r\x00\x01\x1f\
 var densePatterns = []string{"[", "]", "[]", "[],", "{\"\":", "{}", "1,", ",", ":", "\"\"", "\"\",", "[1,", "{\"a\":1,", "}", "\\\"", "\"\\\\\",", "[[],", "n", "true,", " [", "\n[]"}
 
 func genHostile(t *rapid.T) ([]byte, string) {
-	switch rapid.IntRange(0, 11).Draw(t, "hkind") {
+	switch rapid.IntRange(0, 12).Draw(t, "hkind") {
+	case 12: // byte-level mutation of a document that spans several index buffers
+		text, _ := genShape(t)
+		if len(text) > 300_000 {
+			text = append(append([]byte(nil), text[:300_000]...), ']')
+		}
+		out, _ := mutateBytes(t, text)
+		return out, "mutated-doc"
 	case 0: // uniform random bytes
 		return rapid.SliceOfN(rapid.Byte(), 0, 300).Draw(t, "bytes"), "random-bytes"
 	case 1: // token soup
@@ -457,7 +464,9 @@ func TestC06_Differential(t *testing.T) {
 			extra = []byte{1}
 		}
 		cl.Eval(nt, evidHash(in, extra), "gen:"+class, boolClass("nd", c.ND), boolClass("accepted", accepted))
-		cl.Sample(func() interface{} { return map[string]interface{}{"input": clip(in), "len": len(in), "nd": c.ND, "gen": class} })
+		cl.Sample(func() interface{} {
+			return map[string]interface{}{"input": clip(in), "len": len(in), "nd": c.ND, "gen": class}
+		})
 	})
 	col("C06").Completed("TestC06_Differential")
 }
@@ -465,6 +474,15 @@ func TestC06_Differential(t *testing.T) {
 // genCarry builds inputs that stress state carried between 64-byte blocks: quotes, backslash runs and
 // pseudo-structural predecessors at offsets 63/64, and a partial last block of every length.
 func genCarry(t *rapid.T) ([]byte, string) {
+	if rapid.IntRange(0, 3).Draw(t, "rollover") == 0 {
+		// the same features right where stage 1 fills an index buffer (1408 indexes) and starts the next one
+		tok := []string{"0,", "[],", `"",`, "1, "}[rapid.IntRange(0, 3).Draw(t, "tok")]
+		per := structuralsOf(tok)
+		n := 1408*rapid.IntRange(1, 3).Draw(t, "bufs")/per + rapid.IntRange(-12, 12).Draw(t, "dk")
+		feat := []string{`"a\\"`, `"\\\""`, `"\\\\"`, `"x\"y"`, `"a\nb"`, `"é"`, `true`, `"a`, `\\`, "\n", `{"k":1}`, `"\\`, `12e3`}[rapid.IntRange(0, 12).Draw(t, "feat")]
+		b := "[" + strings.Repeat(tok, n) + strings.Repeat(" ", rapid.IntRange(0, 63).Draw(t, "pad")) + feat + `,"` + strings.Repeat("z", rapid.IntRange(0, 130).Draw(t, "tail")) + `"]`
+		return []byte(b), "carry"
+	}
 	blocks := rapid.IntRange(1, 6).Draw(t, "blocks")
 	tail := rapid.IntRange(0, 63).Draw(t, "tail")
 	n := blocks*64 + tail
